@@ -10,3 +10,6 @@ python3 ../harness/mkprops.py C07 Props/headers/h07.txt \
 python3 ../harness/mkprops.py C20 Props/headers/h20.txt \
   Proofs/CostProofs.v:search_cost_erases,search_cost_complete,search_cost_lower,ring_no_clique,ring_cost_lower,ring_cost_exponential \
   Proofs/StepsProofs.v > Props/C20.v
+python3 ../harness/mkprops.py C08 Props/headers/h08.txt \
+  Proofs/MsProofs.v:build_graph_valid,from_ms_valid,build_graph_generations,en_resets_growth,en_resets_growth_unchanged_case,group_by_time_concat,group_by_time_same \
+  Proofs/FromMsRefine.v Proofs/MigsFromMatrices.v > Props/C08.v
